@@ -38,75 +38,84 @@ def core_cfg(layouts, methods, xffs, horizon, ticks, maxbatch, vals="Vals12", va
     return "\n".join(lines) + "\n"
 
 
-# (layouts, methods, xffs, horizon, ticks, maxbatch)
+# (layouts, methods, xffs, horizon, ticks, maxbatch, vals)
 MC_PLAN = {
     "quick": {
-        "C01": [("MCLayoutsQuick", "MethodSum", "XffOne", 2, "Ticks12", 2)],
-        "C02": [("MCLayoutsD", "MethodLast", "XffZero", 1, "Ticks1", 2)],
-        "C03": [("MCLayoutsQuick", "MethodSum", "XffOne", 2, "Ticks12", 2)],
-        "C04": [("MCLayoutsA", "MethodSum", "XffOne", 6, "Ticks1J", 1)],
-        "C05": [("MCLayoutsQuick", "MethodSum", "XffOne", 2, "Ticks12", 1)],
-        "C06": [("MCLayoutsQuick", "MethodSum", "XffOne", 2, "Ticks12", 2)],
+        "C01": [("MCLayoutsQuick", "MethodSum", "XffOne", 2, "Ticks12", 2, "Vals12"),
+                ("MCLayoutsC", "MethodSum", "XffOne", 5, "Ticks12J", 2, "Vals1")],
+        "C02": [("MCLayoutsD", "MethodLast", "XffZero", 2, "Ticks12", 2, "Vals1"),
+                ("MCLayoutsQuick", "MethodsAll", "XffSet", 2, "Ticks12", 2, "Vals1")],
+        "C03": [("MCLayoutsQuick", "MethodSum", "XffOne", 2, "Ticks12", 2, "Vals12")],
+        "C04": [("MCLayoutsA", "MethodSum", "XffOne", 6, "Ticks1J", 1, "Vals1"),
+                ("MCLayoutsC", "MethodSum", "XffOne", 5, "Ticks12J", 1, "Vals1")],
+        "C05": [("MCLayoutsQuick", "MethodSum", "XffOne", 1, "Ticks1", 1, "Vals1"),
+                ("MCLayoutsC", "MethodSum", "XffOne", 2, "Ticks12", 1, "Vals1")],
+        "C06": [("MCLayoutsQuick", "MethodSum", "XffOne", 2, "Ticks12", 2, "Vals1"),
+                ("MCLayoutsC", "MethodSum", "XffOne", 5, "Ticks12J", 2, "Vals1")],
     },
     "thorough": {
-        "C01": [("MCLayoutsQuick", "MethodSum", "XffOne", 7, "Ticks12J", 2),
-                ("MCLayoutsC", "MethodSum", "XffOne", 8, "Ticks12J", 3),
-                ("MCLayoutsB", "MethodLast", "XffZero", 3, "Ticks12", 2),
-                ("MCLayoutsD", "MethodSum", "XffOne", 3, "Ticks12", 2)],
-        "C02": [("MCLayoutsD", "MethodsAll", "XffSet", 2, "Ticks12", 2),
-                ("MCLayoutsQuick", "MethodsAll", "XffSet", 3, "Ticks12", 2),
-                ("MCLayouts3", "MethodsQuick", "XffSet", 2, "Ticks12", 2),
-                ("MCLayoutsB", "MethodAvg", "XffSet", 2, "Ticks12", 2)],
-        "C03": [("MCLayoutsQuick", "MethodSum", "XffOne", 3, "Ticks12", 3),
-                ("MCLayoutsB", "MethodSum", "XffOne", 2, "Ticks12", 2),
-                ("MCLayoutsD", "MethodSum", "XffOne", 3, "Ticks12", 2),
-                ("MCLayouts3", "MethodSum", "XffOne", 2, "Ticks12", 2)],
-        "C04": [("MCLayoutsA", "MethodSum", "XffOne", 7, "Ticks12J", 1),
-                ("MCLayoutsB", "MethodSum", "XffOne", 8, "Ticks1J", 1),
-                ("MCLayoutsC", "MethodSum", "XffOne", 8, "Ticks12J", 1),
-                ("MCLayouts3", "MethodSum", "XffOne", 9, "Ticks1J", 1),
-                ("MCLayoutsD", "MethodSum", "XffOne", 9, "Ticks1J", 1)],
-        "C05": [("MCLayoutsQuick", "MethodSum", "XffOne", 3, "Ticks12", 2),
-                ("MCLayoutsD", "MethodSum", "XffOne", 2, "Ticks12", 1)],
-        "C06": [("MCLayoutsQuick", "MethodSum", "XffOne", 7, "Ticks12J", 2),
-                ("MCLayoutsC", "MethodSum", "XffOne", 8, "Ticks12J", 3)],
+        "C01": [("MCLayoutsQuick", "MethodSum", "XffOne", 6, "Ticks12J", 2, "Vals12"),
+                ("MCLayoutsC", "MethodSum", "XffOne", 8, "Ticks12J", 3, "Vals12"),
+                ("MCLayoutsB", "MethodLast", "XffZero", 3, "Ticks12", 2, "Vals1"),
+                ("MCLayoutsD", "MethodSum", "XffOne", 3, "Ticks12", 2, "Vals1"),
+                ("MCLayouts3", "MethodSum", "XffOne", 2, "Ticks12", 2, "Vals1")],
+        "C02": [("MCLayoutsD", "MethodsAll", "XffSet", 2, "Ticks12", 2, "Vals1"),
+                ("MCLayoutsQuick", "MethodsAll", "XffSet", 3, "Ticks12", 2, "Vals12"),
+                ("MCLayouts3", "MethodsAll", "XffSet", 1, "Ticks1", 2, "Vals1"),
+                ("MCLayoutsB", "MethodsAll", "XffSet", 2, "Ticks12", 2, "Vals1"),
+                ("MCLayoutsE", "MethodsQuick", "XffSet", 1, "Ticks1", 2, "Vals1")],
+        "C03": [("MCLayoutsQuick", "MethodSum", "XffOne", 3, "Ticks12", 3, "Vals1"),
+                ("MCLayoutsQuick", "MethodSum", "XffOne", 3, "Ticks12", 2, "Vals12"),
+                ("MCLayoutsB", "MethodSum", "XffOne", 2, "Ticks12", 2, "Vals1"),
+                ("MCLayoutsD", "MethodSum", "XffOne", 3, "Ticks12", 2, "Vals1"),
+                ("MCLayouts3", "MethodSum", "XffOne", 2, "Ticks12", 2, "Vals1")],
+        "C04": [("MCLayoutsA", "MethodSum", "XffOne", 7, "Ticks12J", 1, "Vals1"),
+                ("MCLayoutsB", "MethodSum", "XffOne", 8, "Ticks1J", 1, "Vals1"),
+                ("MCLayoutsC", "MethodSum", "XffOne", 8, "Ticks12J", 1, "Vals1"),
+                ("MCLayouts3", "MethodSum", "XffOne", 9, "Ticks1J", 1, "Vals1"),
+                ("MCLayoutsD", "MethodSum", "XffOne", 9, "Ticks1J", 1, "Vals1")],
+        "C05": [("MCLayoutsQuick", "MethodSum", "XffOne", 2, "Ticks12", 1, "Vals12"),
+                ("MCLayoutsC", "MethodSum", "XffOne", 3, "Ticks12J", 2, "Vals1")],
+        "C06": [("MCLayoutsQuick", "MethodSum", "XffOne", 6, "Ticks12J", 2, "Vals1"),
+                ("MCLayoutsC", "MethodSum", "XffOne", 8, "Ticks12J", 3, "Vals1")],
     },
 }
 
-# export configs: (layouts, methods, xffs, horizon, ticks, maxbatch, sample, export kind)
+# export configs: (layouts, methods, xffs, horizon, ticks, maxbatch, vals, sample, export kind)
 EXPORT_PLAN = {
     "quick": {
-        "C01": [("MCLayoutsQuick", "MethodSum", "XffOne", 2, "Ticks12", 2, 24, "all"),
-                ("MCLayoutsC", "MethodSum", "XffOne", 5, "Ticks12J", 2, 8, "all")],
-        "C02": [("MCLayoutsD", "MethodsAll", "XffZero", 1, "Ticks1", 2, 8, "edges"),
-                ("MCLayoutsQuick", "MethodsAll", "XffOne", 1, "Ticks1", 2, 16, "edges")],
-        "C03": [("MCLayoutsQuick", "MethodSum", "XffOne", 2, "Ticks12", 2, 8, "edges"),
-                ("MCLayoutsD", "MethodSum", "XffOne", 1, "Ticks1", 2, 8, "edges")],
-        "C04": [("MCLayoutsA", "MethodSum", "XffOne", 6, "Ticks1J", 1, 1, "states")],
-        "C06": [("MCLayoutsQuick", "MethodSum", "XffOne", 2, "Ticks12", 2, 24, "all"),
-                ("MCLayoutsC", "MethodSum", "XffOne", 5, "Ticks12J", 2, 8, "all")],
+        "C01": [("MCLayoutsQuick", "MethodSum", "XffOne", 2, "Ticks12", 2, "Vals1", 8, "all"),
+                ("MCLayoutsC", "MethodSum", "XffOne", 5, "Ticks12J", 2, "Vals1", 4, "all")],
+        "C02": [("MCLayoutsD", "MethodsAll", "XffZero", 2, "Ticks12", 2, "Vals1", 4, "edges"),
+                ("MCLayoutsQuick", "MethodsAll", "XffOne", 2, "Ticks12", 2, "Vals1", 16, "edges")],
+        "C03": [("MCLayoutsQuick", "MethodSum", "XffOne", 2, "Ticks12", 2, "Vals12", 24, "edges"),
+                ("MCLayoutsD", "MethodSum", "XffOne", 2, "Ticks12", 2, "Vals1", 4, "edges")],
+        "C04": [("MCLayoutsA", "MethodSum", "XffOne", 6, "Ticks1J", 1, "Vals1", 1, "states"),
+                ("MCLayoutsC", "MethodSum", "XffOne", 5, "Ticks12J", 1, "Vals1", 1, "states")],
+        "C06": [("MCLayoutsQuick", "MethodSum", "XffOne", 2, "Ticks12", 2, "Vals1", 8, "all"),
+                ("MCLayoutsC", "MethodSum", "XffOne", 5, "Ticks12J", 2, "Vals1", 4, "all")],
     },
     "thorough": {
-        "C01": [("MCLayoutsQuick", "MethodSum", "XffOne", 5, "Ticks12J", 2, 24, "all"),
-                ("MCLayoutsC", "MethodSum", "XffOne", 8, "Ticks12J", 2, 4, "all"),
-                ("MCLayoutsB", "MethodLast", "XffZero", 3, "Ticks12", 2, 16, "all"),
-                ("MCLayoutsD", "MethodSum", "XffOne", 2, "Ticks12", 2, 16, "all")],
-        "C02": [("MCLayoutsD", "MethodsAll", "XffSet", 2, "Ticks12", 2, 8, "edges"),
-                ("MCLayoutsQuick", "MethodsAll", "XffSet", 2, "Ticks12", 2, 8, "edges"),
-                ("MCLayouts3", "MethodsAll", "XffSet", 1, "Ticks1", 2, 16, "edges"),
-                ("MCLayoutsB", "MethodsAll", "XffSet", 1, "Ticks1", 2, 16, "edges")],
-        "C03": [("MCLayoutsQuick", "MethodSum", "XffOne", 3, "Ticks12", 3, 64, "edges"),
-                ("MCLayoutsB", "MethodSum", "XffOne", 2, "Ticks12", 2, 8, "edges"),
-                ("MCLayoutsD", "MethodSum", "XffOne", 2, "Ticks12", 2, 8, "edges"),
-                ("MCLayouts3", "MethodSum", "XffOne", 1, "Ticks1", 2, 16, "edges")],
-        "C04": [("MCLayoutsA", "MethodSum", "XffOne", 7, "Ticks12J", 1, 1, "states"),
-                ("MCLayoutsB", "MethodSum", "XffOne", 8, "Ticks1J", 1, 1, "states"),
-                ("MCLayoutsC", "MethodSum", "XffOne", 8, "Ticks12J", 1, 1, "states"),
-                ("MCLayouts3", "MethodSum", "XffOne", 9, "Ticks1J", 1, 1, "states"),
-                ("MCLayoutsD", "MethodSum", "XffOne", 9, "Ticks1J", 1, 1, "states")],
-        "C06": [("MCLayoutsQuick", "MethodSum", "XffOne", 5, "Ticks12J", 2, 24, "all"),
-                ("MCLayoutsC", "MethodSum", "XffOne", 8, "Ticks12J", 2, 4, "all"),
-                ("MCLayoutsD", "MethodSum", "XffOne", 2, "Ticks12", 2, 16, "all")],
+        "C01": [("MCLayoutsQuick", "MethodSum", "XffOne", 5, "Ticks12J", 2, "Vals1", 8, "all"),
+                ("MCLayoutsC", "MethodSum", "XffOne", 8, "Ticks12J", 2, "Vals12", 4, "all"),
+                ("MCLayoutsB", "MethodLast", "XffZero", 3, "Ticks12", 2, "Vals1", 16, "all"),
+                ("MCLayoutsD", "MethodSum", "XffOne", 2, "Ticks12", 2, "Vals1", 16, "all")],
+        "C02": [("MCLayoutsD", "MethodsAll", "XffSet", 2, "Ticks12", 2, "Vals1", 4, "edges"),
+                ("MCLayoutsQuick", "MethodsAll", "XffSet", 2, "Ticks12", 2, "Vals12", 16, "edges"),
+                ("MCLayouts3", "MethodsAll", "XffSet", 1, "Ticks1", 2, "Vals1", 16, "edges"),
+                ("MCLayoutsB", "MethodsAll", "XffSet", 1, "Ticks1", 2, "Vals1", 16, "edges")],
+        "C03": [("MCLayoutsQuick", "MethodSum", "XffOne", 3, "Ticks12", 3, "Vals1", 64, "edges"),
+                ("MCLayoutsB", "MethodSum", "XffOne", 2, "Ticks12", 2, "Vals1", 8, "edges"),
+                ("MCLayoutsD", "MethodSum", "XffOne", 2, "Ticks12", 2, "Vals1", 8, "edges"),
+                ("MCLayouts3", "MethodSum", "XffOne", 1, "Ticks1", 2, "Vals1", 16, "edges")],
+        "C04": [("MCLayoutsA", "MethodSum", "XffOne", 7, "Ticks12J", 1, "Vals1", 1, "states"),
+                ("MCLayoutsB", "MethodSum", "XffOne", 8, "Ticks1J", 1, "Vals1", 1, "states"),
+                ("MCLayoutsC", "MethodSum", "XffOne", 8, "Ticks12J", 1, "Vals1", 1, "states"),
+                ("MCLayouts3", "MethodSum", "XffOne", 9, "Ticks1J", 1, "Vals1", 1, "states"),
+                ("MCLayoutsD", "MethodSum", "XffOne", 9, "Ticks1J", 1, "Vals1", 1, "states")],
+        "C06": [("MCLayoutsQuick", "MethodSum", "XffOne", 5, "Ticks12J", 2, "Vals1", 8, "all"),
+                ("MCLayoutsC", "MethodSum", "XffOne", 8, "Ticks12J", 2, "Vals1", 4, "all"),
+                ("MCLayoutsD", "MethodSum", "XffOne", 2, "Ticks12", 2, "Vals1", 16, "all")],
     },
 }
 
@@ -146,16 +155,16 @@ def _run_core(prop, tier, seed, v, wd):
         mcs = MC_PLAN[tier][prop]
         exps = EXPORT_PLAN[tier].get(prop, [])
         nw = max(2, NCPU // max(1, min(4, len(mcs) + len(exps))))
-        for i, (lay, meth, xff, hor, ticks, mb) in enumerate(mcs):
-            cfg = core_cfg(lay, meth, xff, hor, ticks, mb, withsync=(prop == "C05"), invs=invs, props=props)
-            futs.append(("mc", (lay, meth, xff, hor, ticks, mb),
+        for i, (lay, meth, xff, hor, ticks, mb, vals) in enumerate(mcs):
+            cfg = core_cfg(lay, meth, xff, hor, ticks, mb, vals=vals, withsync=(prop == "C05"), invs=invs, props=props)
+            futs.append(("mc", (lay, meth, xff, hor, ticks, mb, vals),
                          ex.submit(run_tlc, wd, "MC_Core", cfg, "mc%d" % i, nw, 7000)))
         # 2. export edges / states for spec -> code replay
-        for i, (lay, meth, xff, hor, ticks, mb, sample, kind) in enumerate(exps):
-            cfg = core_cfg(lay, meth, xff, hor, ticks, mb, export=kind, sample=sample,
+        for i, (lay, meth, xff, hor, ticks, mb, vals, sample, kind) in enumerate(exps):
+            cfg = core_cfg(lay, meth, xff, hor, ticks, mb, vals=vals, export=kind, sample=sample,
                            invs=["ExportState"] if kind in ("states", "all") else [],
                            actcon="ExportEdge" if kind in ("edges", "all") else None)
-            futs.append(("export", (lay, meth, xff, hor, ticks, mb, sample, kind),
+            futs.append(("export", (lay, meth, xff, hor, ticks, mb, vals, sample, kind),
                          ex.submit(run_tlc, wd, "MC_Core", cfg, "ex%d" % i, nw, 7000,
                                    None, None, None, ["-seed", str(seed)])))
         # 3. driver traces (code -> spec)
